@@ -42,6 +42,7 @@ def run(F, rep, tier):
     for u in T.unknown:
         rep.ob("TEMPLATES", "ir|unanalysable|%s" % u[1], False, "lowering code the template evaluator cannot follow: %s" % (u,), u[2])
     local_rule(F, rep, T)
+    definition_template(F, rep, T)
     declaring_ops(F, rep, T)
     snapshot(F, rep, T)
     import c01
@@ -231,3 +232,35 @@ def snapshot(F, rep, T):
     rep.ob("SHARED-CAPTURE", "expression|Function", ok,
            "a function literal lowers to Function .. End around its body without copying captured variables: the body refers to "
            "them by name, so closures of one activation share them and each activation/iteration has its own")
+
+
+def definition_template(F, rep, T, rule="LOCAL"):
+    """`x := v` / `x :: v` (v no function literal): the variable is one Lua local of the activation the definition runs in, declared
+    there, and v is evaluated once - there - and stored in it.  Every closure of that activation captures that local, and a later run of
+    the definition (another activation, another iteration) makes a new one.  A variable that is renamed into the instruction of its
+    value, or defined on some paths only, is built again wherever the emitter inlines it."""
+    d = T.definition
+    alts = [it for it in (d or []) if it[0] == "alt"]
+    ok = False
+    got = "no alternatives found"
+    if len(d or []) == 1 and alts and len(alts[0][1]) == 2:
+        shapes = []
+        for a in alts[0][1]:
+            shapes.append([(i[0], i[1], tuple(map(tuple, i[2])) if i[0] == "op" else i[2]) for i in a])
+        fn_alt = [a for a in alts[0][1] if len(a) == 1 and a[0][0] == "code"]
+        val_alt = [a for a in alts[0][1] if len(a) == 3]
+        if fn_alt and val_alt:
+            a = val_alt[0]
+            ok = a[0][0] == "op" and a[0][1] == "Define" and list(map(tuple, a[0][2])) == [("param", "var")] and \
+                a[1][0] == "code" and a[1][2] == "value" and \
+                a[2][0] == "op" and a[2][1] in ("Assign", "Copy") and tuple(a[2][2][0]) == ("param", "var") and a[2][2][1][0] == "result" and a[2][2][1][1] == "value"
+        got = "; ".join(" ".join("%s" % (i[1] if i[0] == "op" else "<code of %s>" % i[2]) for i in a) for a in alts[0][1])
+    elif d is not None:
+        got = "%d top-level items" % len(d)
+    unk = [u for u in T.unknown if "definition" in str(u)]
+    rep.ob(rule, "definition|declared-then-stored-once", ok and not unk,
+           "a definition lowers to Define(x); <code of the value>; Assign(x, value) - a function literal to its own IR::Function" if ok and not unk else
+           "IRCodeGen::definition does not lower a definition to `Define(x); <code of the value>; Assign(x, value)` on every path (%s%s): a "
+           "variable that is not declared where its definition stands and filled once has no slot of its own - the value is built again "
+           "where the emitter writes the variable's one use, once per run of *that* place, and closures of one activation no longer share it"
+           % (got, "; unanalysable: %s" % (unk[0],) if unk else ""))
